@@ -14,8 +14,8 @@ TInit == TLCSet(1, 0) /\ l = 1 /\ MInit(ItIds)
 ObsOK(e, f) ==
   /\ e.panic = ""
   /\ e.len = Cardinality(DOMAIN f)
-  /\ e.keys = KeysOf(f)
-  /\ e.str = StringOf(f)
+  /\ (IF e.lite = 1 THEN e.keys = <<Cardinality(DOMAIN f)>>      \* very large map: number of keys only
+      ELSE e.keys = KeysOf(f) /\ e.str = StringOf(f))
   /\ \A i \in DOMAIN e.gets :
        LET g == e.gets[i] IN <<g[2], g[3]>> = GetOK(f, g[1]) /\ g[4] = GetOK(f, g[1])[1]
 
@@ -31,6 +31,8 @@ RealStep(e) ==
   /\ CASE e.op = "set"    -> MSet(e.k, e.v) /\ e.res = res'
        [] e.op = "delete" -> MDelete(e.k) /\ e.res = res'
        [] e.op = "clear"  -> MClear
+       [] e.op = "bulkset" -> MBulkSet(e.lo, e.hi) /\ e.res = res'
+       [] e.op = "bulkdel" -> MBulkDel(e.lo, e.hi) /\ e.res = res'
        [] e.op = "look"   -> UNCHANGED <<m, its, res>>
        [] e.op = "first"  -> MFirst(e.i)
        [] e.op = "last"   -> MLast(e.i)
